@@ -2,6 +2,7 @@
 from __future__ import annotations
 
 import ast
+import re
 
 from ..core import AnalysisError, call_name, dotted, kwarg, norm, walk_no_nested
 from ..effects import analyse
@@ -20,7 +21,8 @@ describe(
     "analysis with package-wide call summaries); an inference engine that re-binds itself to another model during a query "
     "(pruning, virtual evidence) is re-bound to the model saved on entry on EVERY exit — return and exception (typestate over "
     "self.model with try/finally recognised); optional `node`-like parameters are tested with `is None`, never by truthiness; the "
-    "global backend configuration is written only by the Config setters.",
+    "global backend configuration is written only by the Config setters; every numpy/torch shim applies the corresponding operation to the same "
+    "arguments in both branches (frozen correspondence table).",
     ["hash-seed, insertion-order and numpy/torch independence of the numbers", "renaming invariance (needs values)"],
 )
 
@@ -392,7 +394,83 @@ def config(rc):
                 rc.fail(None, node, "module-level write to the global configuration", construct="module-level config write", file=mod.rel, func="<module>")
 
 
-_VE_Q_OLD = "        if isinstance(self.model, BayesianNetwork) and (virtual_evidence is not None):\n            orig_model = self.model\n            self._virtual_evidence(virtual_evidence)\n            virt_evidence = {\"__\" + cpd.variables[0]: 0 for cpd in virtual_evidence}\n            try:\n                return self.query("
+# numpy operation -> (torch operation, {numpy keyword: torch keyword}); frozen after reading pgmpy/utils/compat_fns.py and the two libraries' documentation
+SHIM_PAIRS = {
+    "np.max": ("torch.amax", {"axis": "dim"}), "np.einsum": ("torch.einsum", {}), "np.argmax": ("torch.argmax", {}), "np.stack": ("torch.stack", {}),
+    "np.ones": ("torch.ones", {"dtype": "dtype"}), "np.unique": ("torch.unique", {"axis": "dim", "return_counts": "return_counts", "return_inverse": "return_inverse"}),
+    "np.flip": ("torch.flip", {"axis": "dims"}), "np.transpose": ("torch.permute", {"axes": "dims"}), "np.exp": ("<arr>.exp", {}), "np.sum": ("torch.sum", {}),
+    "np.array": ("torch.clone", {}), "<arr>.tobytes": ("<arr>.numpy(force=True).tobytes", {}), "<arr>.ravel": ("to_numpy(<arr>).ravel", {}),
+}
+
+
+@rule("C16.shims", "every numpy/torch shim performs the corresponding operation on the same arguments in both branches", floor=10)
+def shims(rc):
+    """pgmpy/utils/compat_fns.py is the only place where the two numeric backends differ.  Each shim has a numpy branch and a torch branch; the answers are
+    backend-independent only if both branches apply the corresponding operation (frozen table) and hand every parameter of the shim to it under the
+    corresponding keyword — a branch that drops `axis`, `return_inverse` or the Fortran order is wrong for one backend only."""
+    repo = rc.repo
+    mod = repo.module("pgmpy/utils/compat_fns.py")
+    n = 0
+    for f in mod.functions.values():
+        rets = [r for r in ast.walk(f.node) if isinstance(r, ast.Return) and r.value is not None]
+        calls = []
+        for r in rets:
+            v = r.value
+            if isinstance(v, ast.Call):
+                calls.append((r, v))
+        if len(calls) < 2 or f.name in ("to_numpy", "copy", "get_compute_backend", "size"):
+            continue
+        first = f.params[0] if f.params else None
+
+        def opname(c):
+            t = norm(c.func)
+            if first:
+                t = re.sub(rf"\b{first}\b", "<arr>", t)
+            return t
+        np_calls = [(r, c) for r, c in calls if opname(c).startswith(("np.", "<arr>.ravel", "<arr>.tobytes"))]
+        th_calls = [(r, c) for r, c in calls if (r, c) not in np_calls]
+        if len(np_calls) != 1 or len(th_calls) != 1:
+            raise AnalysisError(f"compat_fns.{f.name}: cannot tell the numpy branch from the torch branch")
+        (_, cn), (_, ct) = np_calls[0], th_calls[0]
+        on, ot = opname(cn), opname(ct)
+        n += 1
+        rc.ob(f"compat_fns.{f.name}: numpy `{norm(cn, 60)}` / torch `{norm(ct, 60)}`")
+        want = SHIM_PAIRS.get(on)
+        if want is None:
+            raise AnalysisError(f"compat_fns.{f.name}: numpy operation `{on}` is not in the frozen correspondence table")
+        if ot != want[0]:
+            rc.fail(f, ct, f"compat_fns.{f.name}: the numpy branch applies `{on}` but the torch branch `{ot}` (expected `{want[0]}`): the two backends compute different things",
+                    construct=f"compat_fns.{f.name} operation pair")
+            continue
+        # every parameter reaches both calls, under corresponding keywords
+        for p in f.params:
+            def where(c):
+                out = []
+                for k, a in enumerate(c.args):
+                    if any(isinstance(x, ast.Name) and x.id == p for x in ast.walk(a)):
+                        out.append(f"#{k}")
+                for kw in c.keywords:
+                    if any(isinstance(x, ast.Name) and x.id == p for x in ast.walk(kw.value)):
+                        out.append(kw.arg)
+                if isinstance(c.func, ast.Attribute) and any(isinstance(x, ast.Name) and x.id == p for x in ast.walk(c.func.value)):
+                    out.append("<receiver>")
+                return out
+            wn, wt = where(cn), where(ct)
+            if not wn or not wt:
+                rc.fail(f, ct if not wt else cn, f"compat_fns.{f.name}: the parameter `{p}` reaches the numpy call as {wn or 'nothing'} and the torch call as {wt or 'nothing'}: one backend ignores it",
+                        construct=f"compat_fns.{f.name} parameter {p}")
+                continue
+            for k in wn:
+                if k.startswith(("#", "<")):
+                    continue
+                tk = want[1].get(k)
+                if tk is not None and tk not in wt:
+                    rc.fail(f, ct, f"compat_fns.{f.name}: `{p}` is numpy's `{k}` and must be torch's `{tk}`; found {wt}", construct=f"compat_fns.{f.name} keyword {k}")
+        # constant arguments (e.g. the Fortran order) must be present on both sides
+        cn_consts = sorted(repr(a.value) for a in cn.args if isinstance(a, ast.Constant))
+        ct_consts = sorted(repr(a.value) for a in ct.args if isinstance(a, ast.Constant))
+        if cn_consts != ct_consts:
+            rc.fail(f, ct, f"compat_fns.{f.name}: constant arguments differ between the branches ({cn_consts} vs {ct_consts})", construct=f"compat_fns.{f.name} constants")
 
 
 @rule("C16.memo", "caches that outlive a call are keyed by everything the cached value depends on; BP re-calibrates unless the tree IS calibrated for the operation", floor=2)
@@ -417,6 +495,16 @@ def defuse(rc):
     _sh.defuse_rule(rc, _sh.anchor_files("C16"))
 
 MUTANTS = [
+    dict(kind="break", name="shim-torch-unique-drops-inverse", file="pgmpy/utils/compat_fns.py", expect="C16.shims",
+         old="            arr, return_inverse=return_inverse, return_counts=return_counts, dim=axis", new="            arr, return_counts=return_counts, dim=axis"),
+    dict(kind="break", name="shim-torch-ravel-c-order", file="pgmpy/utils/compat_fns.py", expect="C16.shims",
+         old='        return to_numpy(arr).ravel("F")', new="        return to_numpy(arr).ravel()"),
+    dict(kind="break", name="shim-torch-max-instead-of-amax-axis", file="pgmpy/utils/compat_fns.py", expect="C16.shims",
+         old="        return torch.amax(arr, dim=axis)", new="        return torch.amax(arr)"),
+    dict(kind="break", name="shim-torch-sum-is-mean", file="pgmpy/utils/compat_fns.py", expect="C16.shims",
+         old="        return torch.sum(arr)", new="        return torch.mean(arr)"),
+    dict(kind="twin", name="shim-keyword-order", file="pgmpy/utils/compat_fns.py",
+         old="            arr, return_inverse=return_inverse, return_counts=return_counts, dim=axis", new="            arr, dim=axis, return_counts=return_counts, return_inverse=return_inverse"),
     dict(kind="break", name="predict-probability-bare-node-label", file="pgmpy/models/BayesianNetwork.py", expect="C16.names",
          old='pred_values[str(k) + "_" + str(state)]', new='pred_values[k + "_" + str(state)]'),
     dict(kind="break", name="assertion-bare-start-node", file="pgmpy/base/DAG.py", expect="C16.names",
